@@ -22,7 +22,7 @@ func (v Value) bool() bool {
 	case uint, uint8, uint16, uint32, uint64:
 		return reflect.ValueOf(value).Uint() != 0
 	case float32:
-		return value != 0
+		return value != 0 && value == value // NaN is false
 	case float64:
 		if math.IsNaN(value) || value == 0 {
 			return false
